@@ -22,7 +22,7 @@ CHECKS = {"C03"}
 
 
 def floors(ctx):
-    f = {"evaluations": 20000 if ctx.tier == "quick" else 200000, "histories": 1000, "ops_raised": 100}
+    f = {"evaluations": 20000 if ctx.tier == "quick" else 200000, "histories": 1000, "ops_raised": 100, "bursts": 500}
     for k in ("op:setv1:loop:new=third", "op:setv2:plain:new=other", "op:setv1:plain:new=old", "op:setv2:half:new=third",
               "op:setv1:plain:new=None", "op:unlink:pair:joined2:keep", "op:unlink:self:joined1:destroy",
               "op:link:pair:joined1:dontdup", "op:link:self:joined1:dontdup", "op:link:pair:joined0:dontdup",
